@@ -17,14 +17,15 @@ pub const K3: &str = "c02.natural_length_above_limit";
 pub const K4: &str = "c02.mode_after_timing_or_objects";
 pub const K5: &str = "c02.degenerate_duplicate_control_points";
 pub const K9: &str = "c02.sample_file_name_trailing_whitespace";
-pub const ALL_K: [&str; 6] = [K1, K2, K3, K4, K5, K9];
+pub const K11: &str = "c02.control_point_times_equal_but_not_identical";
+pub const ALL_K: [&str; 7] = [K1, K2, K3, K4, K5, K9, K11];
 
 pub struct Open {
-    pub k: [bool; 6],
+    pub k: [bool; 7],
 }
 impl Open {
     pub fn from_ctx(ctx: &Ctx) -> Self {
-        Open { k: [ctx.open(K1), ctx.open(K2), ctx.open(K3), ctx.open(K4), ctx.open(K5), ctx.open(K9)] }
+        Open { k: [ctx.open(K1), ctx.open(K2), ctx.open(K3), ctx.open(K4), ctx.open(K5), ctx.open(K9), ctx.open(K11)] }
     }
     fn is(&self, key: &str) -> bool {
         ALL_K.iter().position(|k| *k == key).map_or(false, |i| self.k[i])
@@ -333,8 +334,72 @@ pub fn judge(text: &str, open: &Open, default_enc: &str) -> Judgement {
                     }
                 }
             }
+            // K11: timing-point times that are "the same time" without being the identical float
+            // (-0 next to 0, or two times closer than f64::EPSILON)
+            if open.is(K11) {
+                if let Some(norm) = snap_close_times(text) {
+                    if let Ok(mn) = decode(&norm) {
+                        let mut k2 = vec![];
+                        if judge_map(&mn, open, &mut k2, default_enc).is_ok() {
+                            let mut keys = vec![K11];
+                            keys.extend(k2);
+                            return Judgement::Known { keys };
+                        }
+                    }
+                }
+            }
             Judgement::Fail(msg)
         }
+    }
+}
+
+/// rewrite the time field of accepted [TimingPoints] lines so that times within f64::EPSILON of an
+/// earlier time (incl. -0 vs 0) become that earlier time's text; None if nothing changes
+fn snap_close_times(text: &str) -> Option<String> {
+    let fr = frame(text);
+    let rej = crate::refmodel::framing::rejected_in_trace(fr.version, &fr.trace);
+    let lines = split_lines(text);
+    let mut seen: Vec<(f64, String)> = vec![];
+    let mut out: Vec<String> = lines.iter().map(|l| l.to_string()).collect();
+    let mut changed = false;
+    for (((sec, line), r), idx) in fr.trace.iter().zip(rej).zip(&fr.trace_lines) {
+        if r {
+            continue;
+        }
+        if *sec == Section::HitObjects {
+            // an object time of -0 sorts before an object at 0 (total_cmp), which reorders the two
+            let f: Vec<&str> = line.split(',').collect();
+            if f.len() > 2 && f[2].trim().parse::<f64>().map_or(false, |t| t == 0.0 && t.is_sign_negative()) {
+                let mut g: Vec<String> = f.iter().map(|x| x.to_string()).collect();
+                g[2] = "0".into();
+                out[*idx] = g.join(",");
+                changed = true;
+            }
+            continue;
+        }
+        if *sec != Section::TimingPoints {
+            continue;
+        }
+        let Some((tf, rest)) = line.split_once(',') else { continue };
+        let Ok(t) = tf.trim().parse::<f64>() else { continue };
+        let t_norm = if t == 0.0 { 0.0 } else { t };
+        if let Some((t0, txt0)) = seen.iter().find(|(t0, _)| (t0 - t_norm).abs() < f64::EPSILON) {
+            if t0.to_bits() != t.to_bits() {
+                out[*idx] = format!("{txt0},{rest}");
+                changed = true;
+            }
+        } else {
+            if t.to_bits() != t_norm.to_bits() {
+                out[*idx] = format!("0,{rest}");
+                changed = true;
+            }
+            seen.push((t_norm, if t.to_bits() != t_norm.to_bits() { "0".to_string() } else { tf.to_string() }));
+        }
+    }
+    if changed {
+        Some(out.join("\n") + "\n")
+    } else {
+        None
     }
 }
 
@@ -406,7 +471,7 @@ pub fn run(ctx: &mut Ctx) {
         }
     });
 
-    let cases = ctx.tier.pick(250_000u64, 3_000_000u64);
+    let cases = ctx.tier.pick(700_000u64, 5_000_000u64);
     ctx.pbt("c02-random", cases, 2500, |t, st| {
         let (text, family) = gen_text_case(t, Avoid::ALL);
         let j = judge(&text, &open, &denc);
@@ -414,7 +479,7 @@ pub fn run(ctx: &mut Ctx) {
     });
 
     // probes: one switch off at a time - the known findings must still be reachable, and nothing else may appear
-    let probe = ctx.tier.pick(6_000u64, 60_000u64);
+    let probe = ctx.tier.pick(20_000u64, 150_000u64);
     for (i, key) in ALL_K.iter().take(5).enumerate() {
         let mut av = Avoid::ALL;
         match i {
